@@ -48,7 +48,7 @@ ASSUMPTIONS = [
     'quick tier: 23-24 grid dates (both epoch seams +- one step, first/last dates, mid-epochs, and 8-9 seed-selected others: '
     'seed s takes the remaining dates with index = s mod 15); thorough: all 151 for every seed',
 ]
-REQUIRED_CLASSES = ['form:number-types', 'form:reused-arrays', 'epoch:WMM2015', 'epoch:WMM2020', 'epoch:WMM2025', 'seam:2020.0', 'seam:2025.0', 'seam:last-before',
+REQUIRED_CLASSES = ['form:after-refused-date', 'form:number-types', 'form:reused-arrays', 'epoch:WMM2015', 'epoch:WMM2020', 'epoch:WMM2025', 'seam:2020.0', 'seam:2025.0', 'seam:last-before',
                     'end:2030.0', 'pole:north', 'pole:south', 'near-pole', 'equator', 'lat:+-1e-9', 'lon:+-180',
                     'height:-1', 'height:850', 'form:float', 'form:int', 'form:date', 'ref:selftest']
 
@@ -255,6 +255,33 @@ def job_offgrid(ctx):
                     ctx.close(obs, exp, 1.0 if cn == 'numpy.float32' else TOL, 'WMM: X, Y, Z do not depend on the numeric type carrying latitude, longitude and height', key)
                     ctx.seen(('numtype', repr(d), lat, lon, hk, cn, how))
                     ctx.cls('form:number-types')
+    # a query REFUSED for its date, between two valid queries on the same object: the object goes on answering for valid dates, and a
+    # following date=None query (= keep the current date) answers for the last ACCEPTED date
+    for (lat, lon, hk) in IP[:4]:
+        WG, WH = rw.basis(float(lat), float(lon), float(hk))
+        for d in (2022.3, 2017.45, 2026.0):
+            name, g, h = rw.coefficients(d)
+            exp = WG @ g + WH @ h
+            for bad in (2012.5, float('nan'), datetime.date(2010, 1, 1), 'abc', -1):
+                key = f'date={d!r} then refused date={bad!r} lat={lat} lon={lon} h={hk}'
+                try:
+                    w = WMM(date=2021.5)
+                    w.magnetic_field(float(lat), float(lon), float(hk), date=d)
+                    try:
+                        w.magnetic_field(float(lat), float(lon), float(hk), date=bad)
+                        ctx.outcome(('bad-date-answered', repr(bad))); continue
+                    except (ValueError, TypeError):
+                        pass
+                    w.magnetic_field(float(lat), float(lon), float(hk), date=None)
+                    o1 = np.array([w.X, w.Y, w.Z], float)
+                    w.magnetic_field(float(lat), float(lon), float(hk), date=d)
+                    o2 = np.array([w.X, w.Y, w.Z], float)
+                except Exception as ex:
+                    ctx.evals += 1
+                    ctx.fail('WMM: valid queries after a refused one raise', key, f'{type(ex).__name__}: {ex}'[:160], exp); continue
+                ctx.close(o1, exp, TOL, 'WMM: date=None after a refused date answers for the last accepted date', key)
+                ctx.close(o2, exp, TOL, 'WMM: the same valid query after a refused one gives the synthesis of the shipped COF', key)
+            ctx.cls('form:after-refused-date')
     # the place held in caller-owned 0-d / one-element arrays that are re-used for a sweep over dates and heights: the arrays stay what they were
     # and every evaluation answers for the degrees they hold
     for (lat, lon, hk) in IP[:5]:
